@@ -30,20 +30,21 @@ const (
 
 // Ctx is the loaded, type-checked program in SSA form.
 type Ctx struct {
-	Repo    string
-	GOARCH  string
-	Fset    *token.FileSet
-	Pkgs    []*packages.Package          // module packages (root module of /repo)
-	ByPath  map[string]*packages.Package // all loaded packages by import path
-	Prog    *ssa.Program
-	SSA     map[string]*ssa.Package // module packages by import path
-	Sizes   types.Sizes
-	cgVTA   *callgraph.Graph
-	cgCHA   *callgraph.Graph
-	allFns  map[*ssa.Function]bool
-	NumFns  int // functions with bodies in module packages
-	useCHA  bool
-	fileSrc map[string][]byte
+	Repo        string
+	GOARCH      string
+	Fset        *token.FileSet
+	Pkgs        []*packages.Package          // module packages (root module of /repo)
+	ByPath      map[string]*packages.Package // all loaded packages by import path
+	Prog        *ssa.Program
+	SSA         map[string]*ssa.Package // module packages by import path
+	Sizes       types.Sizes
+	cgVTA       *callgraph.Graph
+	cgCHA       *callgraph.Graph
+	allFns      map[*ssa.Function]bool
+	NumFns      int // functions with bodies in module packages
+	useCHA      bool
+	fileSrc     map[string][]byte
+	boundsCache map[*ssa.Function]*linAn
 }
 
 // Load type-checks the root module of repo and builds SSA for the whole program.
